@@ -4,6 +4,8 @@ pub mod native_abi;
 pub mod native_schemacodec;
 #[cfg(feature = "xnative")]
 pub mod native_crypto;
+#[cfg(feature = "xnative")]
+pub mod native_lib;
 // Native-only bounded harnesses (small-scope enumeration; CBMC cannot handle the heap-heavy schema code).
 // name, body, properties, functions, bound  -- parsed by tools/native_run.py from the `n(` lines below.
 include!("native_family.rs");
@@ -18,10 +20,12 @@ fn native_misc_registry() -> Vec<(&'static str, fn(&mut crate::src::EnumSrc))> {
     let mut v = native_misc_registry0();
     #[cfg(feature = "xnative")]
     v.extend(vec![
-        // n(nencrypted_passwords, "C14,C01", "savefile::save_encrypted_file; savefile::load_encrypted_file; CryptoWriter::new/write/flush/drop; CryptoReader::new/read (real ring AES-256-GCM, real bzip2)", "small-scope documents (payload 0..140 kB, i.e. one and two crypto chunks) x 6 passwords for saving x 6 for loading");
+        // n(nencrypted_passwords, "C14,C01", "savefile::save_encrypted_file; savefile::load_encrypted_file; CryptoWriter::new/write/flush/drop; CryptoReader::new/read (real ring AES-256-GCM, real bzip2)", "small-scope documents (payload 0..140 kB, i.e. one and two crypto chunks) x 9 passwords for saving x 9 for loading (whitespace, line-terminator, case and combining-mark variants)");
         ("nencrypted_passwords", (|s: &mut crate::src::EnumSrc| crate::native_crypto::encrypted_passwords(s)) as fn(&mut crate::src::EnumSrc)),
         // n(nencrypted_tamper, "C14,C07", "savefile::load_encrypted_file; CryptoReader::new; CryptoReader::read (real ring)", "small-scope documents; every byte offset for files <= 160 bytes, else offsets around the nonce, size headers, chunk boundary and end; 3 bit patterns; truncation at the same offsets");
         ("nencrypted_tamper", (|s: &mut crate::src::EnumSrc| crate::native_crypto::encrypted_tamper(s)) as fn(&mut crate::src::EnumSrc)),
+        // n(nrt_library, "C01,C02", "hand-written Serialize/Deserialize impls: IpAddr, SocketAddr, Duration, SystemTime, chrono::DateTime<Utc>, PathBuf, String, char, Option, Result, tuples, arrays, Box<[T]>, Arc<[T]>, Arc<str>, Rc, RefCell, Cell, Box, Vec, VecDeque, BinaryHeap, BTreeMap, BTreeSet, HashMap, HashSet, parking_lot Mutex/RwLock, std Mutex, atomics, Range, PhantomData, (), bit_vec 0.6/0.8, bit_set 0.5/0.8, ArrayVec, ArrayString, SmallVec, IndexMap, IndexSet, f32/f64, i128/u128, isize/usize, Canary1, Cow", "80 fixed values with golden bytes");
+        ("nrt_library", (|s: &mut crate::src::EnumSrc| crate::native_lib::rt_library(s)) as fn(&mut crate::src::EnumSrc)),
         // n(ncrypto_stream, "C08,C01", "CryptoWriter::new; CryptoWriter::write; CryptoWriter::flush; Drop for CryptoWriter; CryptoReader::new; CryptoReader::read (real ring)", "payload lengths 0..230000 (around the 100000-byte chunk size), 4 write-piece sizes; inner reader chunk sizes 1..4096 x 5 Interrupted patterns x 4 read sizes; reader/writer failure at 7-9 offsets; short-writing inner writer");
         ("ncrypto_stream", (|s: &mut crate::src::EnumSrc| crate::native_crypto::crypto_stream(s)) as fn(&mut crate::src::EnumSrc)),
         // n(ncompressed_container, "C01,C07", "savefile::save_compressed; Serializer::save_impl (bzip2 branch); Deserializer::load_impl (bzip2 branch)", "small-scope documents; every cut for files <= 160 bytes, else 12 cut points");
